@@ -10,7 +10,7 @@ abbrev Str := List UInt8
 
 open Lean in
 /-- `b!"abc"` : the bytes of a string literal as a `List UInt8` literal. -/
-macro "b!" s:str : term => do
+macro:max "b!" s:str : term => do
   let bytes := s.getString.toUTF8.toList
   let elems ← bytes.mapM fun b => `(($(quote b.toNat) : UInt8))
   `(([$(elems.toArray),*] : List UInt8))
